@@ -1,15 +1,29 @@
 """C41 — the `hy` command behaves the same from -c, FILE, stdin `-` and -m.
 
 One generated program and argument list is run in the four invocation modes,
-with the installed `hy` script and with `python -m hy`, in a scratch cwd with
-byte-code enabled in a per-case cache; FILE and -m are run twice (source, then
-cache).  The program prints sys.argv[0] on a tagged line, sys.argv[1:] as JSON
+with the installed `hy` script and (rotating on the quick tier) with
+`python -m hy`, in a scratch cwd with byte-code enabled in a per-case cache; FILE
+and -m are also re-run from the cache (rotating on the quick tier).  The program prints sys.argv[0] on a tagged line, sys.argv[1:] as JSON
 and its results.
 
 Oracle: stdout (without the argv[0] line) and exit status pairwise equal over
 all observations; argv[1:] exactly the trailing arguments passed; argv[0] per
 the table of Python's command-line docs that docs/cli.rst defers to: "-c",
-FILE as given, "-", full path of the module file.  stderr is not compared.
+FILE, "-", full path of the module file.  stderr is not compared.
+
+Carve-outs (beyond DESIGN §7):
+* FILE mode: sys.argv[0] may be the script name as given *or* an absolute path of
+  the same file — Python's sys.argv docs leave open "whether this is a full
+  pathname or not" (hy hands the path to runpy.run_path, which stores the
+  absolute one);
+* no program starts with a shebang line: "Shebangs aren't real Hy syntax"
+  (docs/syntax.rst) and tests/test_bin.py asserts `hy -c '#!…'` is an error, so
+  such a text is a valid program for FILE / -m only;
+* programs reference only names they import themselves (in -c / stdin mode the
+  program shares `__main__` with the launcher script, whose globals are visible);
+* REPL options (-i, --spy, --repl-output-fn) appear only as trailing arguments.
+Every non-failing-to-compile program must report sys.argv on its first lines, so
+"all modes equally consumed the argument" cannot pass as agreement.
 """
 import json
 import os
@@ -23,11 +37,11 @@ RULE = ("short generated programs (print results, sys.argv, __name__; exit via s
         "fail to compile; define/use/require a macro) x trailing argument lists of 0-4 items from "
         "{a, -i, -c, -m, --, --spy, -B, -, --x=1, '', spaces, Unicode, -h, --help, -v, --version, ...} x option "
         "spellings before the program (-B -E -u -BE --unbuffered, -Bc CODE, -cCODE, -c=CODE, -mMOD, -m=MOD, --), each "
-        "run in the 4 modes with `hy`, in 1 (quick, rotating) or 4 (thorough) modes with `python -m hy`, plus a cached re-run of FILE or -m (both on thorough). "
+        "run in the 4 modes with `hy`, plus (quick, rotating) one mode with `python -m hy` or one cached re-run of FILE / -m, (thorough) all 4 modes with `python -m hy` and both cached re-runs. "
         "Non-trivial = trailing argument list containing an option-like item (starts with '-'); distinct by "
         "(program, arguments, option spellings).")
-FLOOR = {"quick": 200, "thorough": 200}
-BUDGET = {"quick": 50, "thorough": 600}
+FLOOR = {"quick": 150, "thorough": 200}
+BUDGET = {"quick": 55, "thorough": 600}
 CASE_TIMEOUT = 240
 NEEDS_EVENTS = True      # events = child processes observed
 ANCHORS = []   # the mechanisms run in child processes; in-process line probes cannot see them.
@@ -106,10 +120,10 @@ def gen(rng, tier):
     # carve-out: no shebang line.  "Shebangs aren't real Hy syntax" (docs/syntax.rst) and
     # tests/test_bin.py asserts that `hy -c '#!…'` is an error, so a program starting with
     # `#!` is a valid program only for FILE / -m.
-    nargs = rng.choice([0, 1, 1, 2, 2, 3, 4])
+    nargs = rng.choice([0, 1, 2, 2, 3, 3, 4])
     args = []
     for _ in range(nargs):
-        args.append(rng.choice(ARGS_OPT) if rng.random() < 0.6 else rng.choice(ARGS_PLAIN))
+        args.append(rng.choice(ARGS_OPT) if rng.random() < 0.7 else rng.choice(ARGS_PLAIN))
     if pkgmod:
         mod_hy, relfile = "pkg.sub-mod", "pkg/sub_mod.hy"
     else:
@@ -122,10 +136,14 @@ def gen(rng, tier):
         "stdin": rng.choice(["-", "-", "-- -"]),
     }
     pre = {k: rng.choice(PRE_OPTS) for k in spell}
-    # quick tier: 6 processes per case (4 modes with `hy`, one mode with `python -m hy`, one cached
-    # re-run), rotating; thorough: all 10
-    alt = ["c", "file", "stdin", "m"] if tier == "thorough" else [rng.choice(["c", "file", "stdin", "m"])]
-    again = ["file", "m"] if tier == "thorough" else [rng.choice(["file", "m"])]
+    # quick tier: 5 processes per case (the 4 modes with `hy`, plus either one mode with
+    # `python -m hy` or one cached re-run, rotating); thorough: all 10
+    if tier == "thorough":
+        alt, again = ["c", "file", "stdin", "m"], ["file", "m"]
+    elif rng.random() < 0.5:
+        alt, again = [rng.choice(["c", "file", "stdin", "m"])], []
+    else:
+        alt, again = [], [rng.choice(["file", "m"])]
     return {"alt_modes": alt, "again": again, "text": text, "args": args, "mod": mod_hy, "relfile": relfile, "helper": helper,
             "spell": spell, "pre": pre, "feats": sorted(feats)}
 
@@ -289,3 +307,9 @@ def run_case(case):
 
 def case_key(case):
     return [case["text"], case["args"], case["spell"], case["pre"], case["mod"]]
+
+
+def gate(tot, classes, extra, tier):
+    if not any(k.startswith("cached-rerun:") for k in classes):
+        return "cached-rerun-of-FILE-or-m-never-observed"
+    return None
